@@ -290,6 +290,14 @@ fn derive_copy_shape(def: &CopyDef, symbol_table: &mut BTreeMap<Rc<str>, Shape>)
             let mut results = Vec::new();
             for candidate in potentials.iter() {
                 match candidate {
+                    // A candidate without fields is a tuple nothing is known
+                    // about, an included document for one.
+                    Shape::Tuple(t_def) if t_def.val.is_empty() => {
+                        return Shape::Narrowed(NarrowedShape {
+                            pos: def.pos.clone(),
+                            types: NarrowingShape::Any,
+                        })
+                    }
                     Shape::Tuple(t_def) => results.push(
                         Shape::Tuple(copied_tuple_shape(t_def, def, symbol_table))
                             .with_pos(def.pos.clone()),
